@@ -323,6 +323,66 @@ def interleave(ctx, case):
     ctx.check('all connections closed and still listed', all(not c.is_open() for c in mgr.connections()) and len(mgr.connections()) == (1 if na else 0) + (1 if nb else 0))
 
 
+def detour(ctx, case):
+    """the user selects a connection and later goes back to `connection all` while the two streams keep arriving: selecting is a matter of
+    display only - afterwards every connection is announced, listed, and `list *` holds each connection's lines exactly as if it were alone"""
+    na, nb = case
+    _quiet()
+    from core import wl, matcher, util
+    from core.connection_manager import ConnectionManager
+    from core.output import Output
+    from frontends.tui.controller import Controller
+    from backends.libwayland_debug_output import parse
+    A, B = STREAM_A[:na], STREAM_B[:nb]
+    order = []
+    ia = ib = 0
+    while ia < na or ib < nb:
+        pick = ctx.choose(['a', 'b'], 'pick%d' % len(order)) if (ia < na and ib < nb) else ('a' if ia < na else 'b')
+        if pick == 'a':
+            order.append(('a', A[ia])); ia += 1
+        else:
+            order.append(('b', B[ib])); ib += 1
+    n = len(order)
+    p = ctx.choose(list(range(1, n)), 'select_before_line')
+    q = ctx.choose(list(range(p, n + 1)), 'all_before_line')
+    first = order[0][0]
+    name_of = {'a': 'A' if first == 'a' else 'B', 'b': 'A' if first == 'b' else 'B'}
+    util.color_output = False
+    wl.Message.base_time = None
+    out, err = RecStream(), RecStream()
+    output = Output(False, True, out, err)
+    mgr = ConnectionManager()
+    c = Controller(output, mgr, matcher.always, matcher.never)
+
+    class F:
+        i = 0
+        def readline(self, size=-1):
+            if F.i == p:
+                c.process_command('connection A')
+            if F.i == q:
+                c.process_command('connection all')
+            F.i += 1
+            return order[F.i - 1][1] + chr(10) if F.i <= n else ''
+    parse.into_sink(F(), output, mgr)
+    ctx.check('no error output', err.items == [])
+    ctx.check('both connections exist and are closed at the end', len(mgr.connections()) == 2 and all(not x.is_open() for x in mgr.connections()))
+    live_after = [s for s in out.items if _norm.match(s)]
+    n0 = len(out.items)
+    c.process_command('list *')
+    listed = [x for x in out.items[n0:] if _norm.match(x)]
+    alone = {}
+    for k, S in (('a', A), ('b', B)):
+        it, er, _ = _render(S)
+        alone[k] = [_norm.sub('', x) for x in it if _norm.match(x)]
+    for k in ('a', 'b'):
+        got = [_norm.sub('', x) for x in listed if _norm.match(x).group(1) == name_of[k]]
+        ctx.check('after the detour `list *` holds the lines of each connection exactly as if it were alone (also of one that opened while another was selected)', got == alone[k])
+    # live: every line that arrived while nothing was selected, or on the selected connection, was shown
+    want_live = [k for i, (k, l) in enumerate(order) if not (p <= i < q) or name_of[k] == 'A']
+    got_live = [{'A': 'a' if name_of['a'] == 'A' else 'b', 'B': 'a' if name_of['a'] == 'B' else 'b'}[_norm.match(x).group(1)] for x in live_after]
+    ctx.check('live: lines arriving while all connections are shown (before and after the detour) and lines of the selected one are displayed', got_live == want_live)
+
+
 def header_tag(ctx, case):
     """the connection a line belongs to is the tag in its HEADER (or the default connection), whatever its string arguments contain"""
     _quiet()
@@ -364,6 +424,8 @@ def obligations(tier):
            cases=[(a, b) for a in range(0, 5) for b in range(0, 5) if a + b > 0 and (tier != 'quick' or a + b <= 6)] +
                  [(a, b, x, y) for (x, y) in ((1, 0), (0, 1), (1, 1)) for a in (1, 2, 3) for b in (1, 2, 3) if x + a <= 4 and y + b <= 4 and (tier != 'quick' or a + b <= 4)] +
                  [(a, b, 9, 0) for a in (1, 2) for b in (0, 1, 2)] + [(a, b, 'R', 0) for a in (3, 4) for b in (0, 2)] + [(a, b, 'S', 0) for a in (2, 3, 4) for b in (2, 3)]),
+        Ob('selection-detour', 'symx', '`connection A` ... `connection all` given at any two points while two tagged streams arrive in any interleaving: afterwards nothing of either connection is missing (list, live)',
+           FUNCS + ['frontends.tui.controller:Controller.connection_command'], '3+3 (4+4) lines, every interleaving x every pair of command positions', detour, cases=[(3, 3)] if tier == 'quick' else [(3, 3), (4, 4), (2, 4)]),
         Ob('header-tag', 'symx', 'tag-like text inside string arguments never decides the connection', FUNCS[8:9], '3 header tags x queue or not x 6 payloads x 2 directions', header_tag, cases=[None]),
         Ob('frame-reachable', 'symx', 'reachability twin', FUNCS[:6], '', twin, cases=[(('new', 'obj'), 'x')], expect_cex=True),
     ]
